@@ -1,6 +1,7 @@
 package core
 
 import (
+	"context"
 	"fmt"
 	"strings"
 
@@ -137,6 +138,26 @@ func Errors(err ...error) error {
 	}
 
 	return errors.New(message)
+}
+
+// IsTerminated reports whether err says that evaluation was cut short because
+// the context was cancelled or its deadline passed, looking through SourceError wrappers.
+func IsTerminated(err error) bool {
+	for err != nil {
+		if err == ErrTerminated || err == context.Canceled || err == context.DeadlineExceeded {
+			return true
+		}
+
+		detail, ok := err.(*SourceErrorDetail)
+
+		if !ok {
+			return false
+		}
+
+		err = detail.BaseError
+	}
+
+	return false
 }
 
 func IsNoMoreData(err error) bool {
